@@ -48,6 +48,14 @@ WRAP_TY = {"exec": "ContractExecMsg", "query": "ContractQueryMsg", "sudo": "Cont
 ENUM_KINDS = ("exec", "query", "sudo")
 
 
+# argument names that are Rust keywords are written as raw identifiers; on the wire they are the plain names
+KEYWORDS = {"type", "match", "fn", "loop", "move", "ref", "mod"}
+
+
+def rn(a):
+    return ("r#" + a["n"]) if a["n"] in KEYWORDS else a["n"]
+
+
 def pick(t, val, i):
     """(rust expression, json text) of the value of argument i (of type t) in message value `val`.
     Integers beyond the second position are distinct per position, so that a permutation of same-typed arguments is visible."""
@@ -120,7 +128,7 @@ def handler_src(prog, part, m, in_trait):
     # argument attributes are written where a sylvia macro sees them: the interface trait and the contract impl
     # (the plain `impl Interface for Contract` block is not a macro input)
     with_attr = in_trait or part["id"] == "own"
-    params = "".join(", %s%s: %s" % (PARAM_ATTR.get(a["t"], "") if with_attr else "", a["n"], gen_name if a["t"] == "GenT" else TYPES[a["t"]][0]) for a in m["args"])
+    params = "".join(", %s%s: %s" % (PARAM_ATTR.get(a["t"], "") if with_attr else "", rn(a), gen_name if a["t"] == "GenT" else TYPES[a["t"]][0]) for a in m["args"])
     ret = (m.get("ret") or m.get("resp") or "QResp") if m["kind"] == "query" else "Response"       # what the handler returns
     explicit = m["kind"] == "query" and m.get("explicit")
     aliased = explicit and m.get("sig", "alias") == "alias"
@@ -130,7 +138,7 @@ def handler_src(prog, part, m, in_trait):
             return "        %s\n        fn %s(&self, ctx: %s%s) -> QResultB<Self::Error>;\n" % (attr, m["name"], ctx_ty, params)
         return "        %s\n        fn %s(&self, ctx: %s%s) -> Result<%s, Self::Error>;\n" % (
             attr, m["name"], ctx_ty, params, ret)
-    args = ", ".join('("%s", rec::enc(&%s))' % (a["n"], a["n"]) for a in m["args"])
+    args = ", ".join('("%s", rec::enc(&%s))' % (a["n"], rn(a)) for a in m["args"])
     ok = "true" if m["outcome"] == "ok" else "false"
     mutc = "" if m["kind"] == "query" else "        rec::touch(ctx.deps.storage, \"%s\");\n" % m["name"]
     if m["kind"] in ("exec", "instantiate"):
@@ -182,16 +190,16 @@ def encode_src(prog):
     for part in prog["parts"]:
         for m in part["methods"]:
             for val in (0, 1):
-                lets = "".join("let %s: %s = %s; " % (a["n"], TYPES[a["t"]][0], pick(a["t"], val, i)[0])
+                lets = "".join("let %s: %s = %s; " % (rn(a), TYPES[a["t"]][0], pick(a["t"], val, i)[0])
                                for i, a in enumerate(m["args"]))
-                fields = ", ".join("%s: %s.clone()" % (a["n"], a["n"]) for a in m["args"])
+                fields = ", ".join("%s: %s.clone()" % (rn(a), rn(a)) for a in m["args"])
                 if m["kind"] in ENUM_KINDS:
                     ctor = "%s::%s { %s }" % (msg_path(part, m["kind"]), m["variant"], fields)
                     doc = '{"%s":%s}' % (m["wire"], body_json(m, val))
                 else:
                     ctor = "%s { %s }" % (msg_path(part, m["kind"]), fields)
                     doc = body_json(m, val)
-                args = ", ".join('("%s", rec::enc(&%s))' % (a["n"], a["n"]) for a in m["args"])
+                args = ", ".join('("%s", rec::enc(&%s))' % (a["n"], rn(a)) for a in m["args"])
                 out.append("        { %slet msg = %s; rec::encode(\"%s\", \"%s\", \"%s\", \"%s\", %d, vec![%s], &msg, %s); }\n" % (
                     lets, ctor, prog["id"], part["id"], m["kind"], m["name"], val, args, json.dumps(doc)))
     return "".join(out)
@@ -213,10 +221,10 @@ def remote_src(prog):
                 continue        # the helper decodes the declared type, the handler returns another one
             for val, handle in ((0, "contract"), (1, "dyn" if part["id"] != "own" else "contract")):
                 n += 1
-                lets = "".join("let %s: %s = %s; " % (a["n"], TYPES[a["t"]][0], pick(a["t"], val, i)[0])
+                lets = "".join("let %s: %s = %s; " % (rn(a), TYPES[a["t"]][0], pick(a["t"], val, i)[0])
                                for i, a in enumerate(m["args"]))
-                call_args = "".join(", %s.clone()" % a["n"] for a in m["args"])
-                encs = ", ".join('("%s", rec::enc(&%s))' % (a["n"], a["n"]) for a in m["args"])
+                call_args = "".join(", %s.clone()" % rn(a) for a in m["args"])
+                encs = ", ".join('("%s", rec::enc(&%s))' % (a["n"], rn(a)) for a in m["args"])
                 generic = prog.get("family") == "generic"
                 ctr = "Ctr<GenVal>" if generic else "Ctr"
                 if part["id"] == "own":
@@ -239,7 +247,7 @@ def remote_src(prog):
                              "          remote::exec(&vt, seq, \"%s\", \"%s\", \"%s\", %d, \"%s\", &addr, &funds, vec![%s], w); seq += 1; }\n" % (
                                  hty, trait_mod, m["near"], call_args, part["id"], m["name"], m["wire"], val, handle, encs))
                 else:
-                    encs_v = ", ".join('serde_json::json!({"n": "%s", "json": rec::enc(&%s)})' % (a["n"], a["n"]) for a in m["args"])
+                    encs_v = ", ".join('serde_json::json!({"n": "%s", "json": rec::enc(&%s)})' % (a["n"], rn(a)) for a in m["args"])
                     o.append("          let argsj: Vec<serde_json::Value> = vec![%s]; let a2 = addr.to_string(); let sq = seq;\n"
                              "          let mut deps = sylvia::cw_std::testing::mock_dependencies();\n"
                              "          deps.querier.update_wasm(move |wq| remote::query_handler(&self::vt(), sq, \"%s\", \"%s\", \"%s\", %d, \"%s\", &a2, argsj.clone(), wq));\n"
@@ -253,9 +261,9 @@ def remote_src(prog):
     own = [p for p in prog["parts"] if p["id"] == "own"][0]
     inst = [m for m in own["methods"] if m["kind"] == "instantiate"][0]
     for val, variant in ((0, "plain"), (1, "full"), (0, "salted")):
-        lets = "".join("let %s: %s = %s; " % (a["n"], TYPES[a["t"]][0], pick(a["t"], val, i)[0]) for i, a in enumerate(inst["args"]))
-        call_args = "".join(", %s.clone()" % a["n"] for a in inst["args"])
-        encs = ", ".join('("%s", rec::enc(&%s))' % (a["n"], a["n"]) for a in inst["args"])
+        lets = "".join("let %s: %s = %s; " % (rn(a), TYPES[a["t"]][0], pick(a["t"], val, i)[0]) for i, a in enumerate(inst["args"]))
+        call_args = "".join(", %s.clone()" % rn(a) for a in inst["args"])
+        encs = ", ".join('("%s", rec::enc(&%s))' % (a["n"], rn(a)) for a in inst["args"])
         o.append("        { use sv::CtrInstantiateBuilder; use sylvia::builder::instantiate::InstantiateBuilder; %slet funds = verif_rrt::funds_pool(%d);\n"
                  "          let b = InstantiateBuilder::ctr(%d%s);\n" % (lets, val + 1, 40 + val, call_args))
         if variant == "plain":
@@ -281,10 +289,10 @@ def builder_src(prog):
     execs = [m for m in own["methods"] if m["kind"] == "exec"]
 
     def lets(m):
-        return "".join("let %s: %s = %s; " % (a["n"], TYPES[a["t"]][0], pick(a["t"], 0, i)[0]) for i, a in enumerate(m["args"]))
+        return "".join("let %s: %s = %s; " % (rn(a), TYPES[a["t"]][0], pick(a["t"], 0, i)[0]) for i, a in enumerate(m["args"]))
 
     def call_args(m):
-        return "".join(", %s.clone()" % a["n"] for a in m["args"])
+        return "".join(", %s.clone()" % rn(a) for a in m["args"])
     o = ["    fn builder_events(runs: &serde_json::Value) {\n"
          "        use sylvia::types::{EmptyExecutorBuilderState, ExecutorBuilder, Remote};\n"
          "        use sylvia::cw_std::{Addr, Binary};\n"
@@ -333,10 +341,10 @@ def mt_src(prog):
     mig = [m for m in own["methods"] if m["kind"] == "migrate"]
 
     def lets(m, val):
-        return "".join("let %s: %s = %s; " % (a["n"], TYPES[a["t"]][0], pick(a["t"], val, i)[0]) for i, a in enumerate(m["args"]))
+        return "".join("let %s: %s = %s; " % (rn(a), TYPES[a["t"]][0], pick(a["t"], val, i)[0]) for i, a in enumerate(m["args"]))
 
     def args(m):
-        return ", ".join("%s.clone()" % a["n"] for a in m["args"])
+        return ", ".join("%s.clone()" % rn(a) for a in m["args"])
 
     def call(p, m):      # fully qualified: handlers of different parts / kinds may share names
         tr = "sv::mt::CtrProxy" if p["id"] == "own" else "%s::sv::mt::%sProxy" % (p["id"], p["id"].capitalize())
